@@ -3,6 +3,7 @@ Functionality to synchronise properties
 """
 
 import ast
+from copy import deepcopy
 from os import path
 
 from doctrans import emit
@@ -129,7 +130,9 @@ def sync_property(
     else:
         annotate_ancestry(input_ast)
         assert isinstance(input_ast, ast.Module)
-        replacement_node = find_in_ast(list(strip_split(input_param, ".")), input_ast)
+        replacement_node = deepcopy(
+            find_in_ast(list(strip_split(input_param, ".")), input_ast)
+        )
 
     assert replacement_node is not None
     if output_param_wrap is not None:
